@@ -52,6 +52,8 @@ class SWorld:
         self.ev = 0
         self.roots = set()
         self.written = set()
+        self.idx = -1
+        self.obs = []
         self.initial_root = self.smt.root_hash
         if self.initial_root != self.ref.initial_root:
             raise Violation("root-mismatch", f"root of a fresh tree is {self.initial_root.hex()}, reference {self.ref.initial_root.hex()}", event=0)
@@ -60,7 +62,8 @@ class SWorld:
         raise Violation(oracle, msg, event=self.ev)
 
     def run(self, cmds):
-        for cmd in cmds:
+        for i, cmd in enumerate(cmds):
+            self.idx = i
             self.ev += 1
             fn = getattr(self, "op_" + cmd["op"], None)
             if fn is None:
@@ -70,6 +73,7 @@ class SWorld:
             self.st.sched_rec(cmd["op"], out)
             self.st.state(self.smt.root_hash)
             self.roots.add(self.smt.root_hash)
+            self.obs.append((i, cmd["op"], out, self.smt.root_hash))
         self.finish()
 
     def finish(self):
